@@ -163,6 +163,30 @@ def work_year(chunk):
             except Exception as e:
                 acc.bad('grader-object-raises:%s' % type(e).__name__, dict(year=year, gender=g, event=ev, age=A), repr(e))
             age += 0.5
+        # ages between the half years (the weights of the column interpolation matter only there), as floats and as Decimals
+        from decimal import Decimal as _D
+        for ia in range(int(first), int(ages[-1]) + 2):
+            for fr in ('0.25', '0.75', '0.01', '0.99', '0.4'):
+                for A in (ia + float(fr), _D(ia) + _D(fr)):
+                    want = oracle_factor(ages, fac, float(A))
+                    if want is None:
+                        continue
+                    acc.n += 1
+                    case = dict(year=year, gender=g, event=ev, age=str(A), age_type=type(A).__name__)
+                    try:
+                        f = a.wma_age_factor(g, A, ev, year=year)
+                        gr = a.wma_age_grade(g, A, ev, best * 1.1, year=year)
+                    except Exception as e:
+                        if isinstance(A, float):
+                            acc.bad('factor-raises:%s:fractional-age' % type(e).__name__, case, 'raised %r, table gives %r' % (e, want))
+                        continue            # a Decimal age may be refused; if it is answered the answer must be right
+                    wg = (best * 1.1) / (best / want) if field else (best / want) / (best * 1.1)
+                    if not close(float(f), want, 1e-9):
+                        acc.bad('factor-differs-from-table:fractional-age', case, 'wma_age_factor = %r, linear interpolation of the table columns gives %r' % (f, want))
+                    elif not close(float(gr), wg, 1e-9):
+                        acc.bad('grade-differs-from-formula:fractional-age', case, 'wma_age_grade = %r, formula gives %r' % (gr, wg))
+                    else:
+                        acc.nontrivial += 1
         if not acc.samples:
             acc.samples.append(dict(year=year, gender=g, event=ev, age=first + 10, factor=oracle_factor(ages, fac, first + 10), best=best))
     return acc.pack()
